@@ -5,12 +5,12 @@ import os
 
 import core
 from core import LeanDriver, canon
-from gen import rules
+from gen import rules, topoorder
 import lib_topo as T
 import lib_topoc09 as X
 
 ID = "C09"
-GENERATORS = [rules.generate]
+GENERATORS = [rules.generate, topoorder.generate_order]
 LEAN_MODULES = ["FimVerif.Proofs.C09", "FimVerif.Drivers.TopoRun"]      # Drivers/C09.lean (interpreted) imports both
 P = "FimVerif.C09."
 THEOREMS = [P + t for t in (
@@ -23,27 +23,34 @@ THEOREMS = [P + t for t in (
     "atomic_op",
     "atomic_addChildInterface", "atomic_addPortMirror", "atomic_addComponentMT", "atomic_removeChildInterface", "atomic_peer",
     "atomic_unpeer", "atomic_xop", "atomic_updateCaplab", "atomic_yop", "atomic_any", "history_atomic", "history_erasure",
-    "okOps_all_ok", "history_all_failed", "removeNode_multipeer_counterexample")] + [
+    "okOps_all_ok", "history_all_failed", "removeNode_multipeer_counterexample", "order_discipline", "order_pinned_minimal",
+    "order_single_write_sound")] + [
     "FimVerif.Topo." + t for t in (
     "removeCpAndLinks_spec", "removeNs_spec", "removeCompGraph_spec", "removeNodeGraph_spec", "detachAll_spec", "removeNodeGraph_fac",
-    "removeCompGraph_comp0", "removeCompGraph_comp1", "flag_componentRollback")]
+    "removeCompGraph_comp0", "removeCompGraph_comp1", "flag_componentRollback")] + [
+    "FimVerif.Topo.OrderTok." + t for t in ("scan_sound", "singleWrite_sound")]
 TRUSTED_BASE = [
-    "Model/Topo.lean mirrors by hand the control flow of fim/user/{topology,node,component,network_service,interface,link}.py and the "
-    "add_*/remove_* sliver functions of abc_property_graph.py over NetworkXPropertyGraph primitives; checked differentially on every call "
-    "of generated histories (outcome, exception kind, returned id, handle cache(s), whole-model snapshot)",
+    "Model/Topo.lean (+ Model/TopoC09.lean for update_labels / update_capacities) mirrors by hand the control flow of "
+    "fim/user/{topology,node,component,network_service,interface,link,model_element}.py and the add_*/remove_* sliver functions of "
+    "abc_property_graph.py over NetworkXPropertyGraph primitives; checked differentially on every call of generated histories "
+    "(outcome, exception kind, returned id, handle cache(s), whole-model snapshot)",
     "sliver-side validation and sliver->graph property encoding of keyword properties are taken from the implementation's pure sliver "
     "code (C02/C16 cover them): the model receives per keyword 'accepted as these graph properties' or 'rejected with this kind'; for "
     "add_child_interface also the vlan of each Labels text in the graph (decoded by the real codec) and the labels after the call "
-    "copied the parent's local_name into them",
+    "copied the parent's local_name into them; for update_labels / update_capacities the merged value (Labels.update on what the graph holds)",
     "gen/rules.py: component catalogue (with what generate_component derives), service/link layers, NO_UNSET_PROPERTIES, and one flag per "
     "repaired idiom read off the AST: exception type selected by the rollback handler of NetworkService.__init__, position of `iindex = 0` "
     "in add_facility, try/except of add_facility/add_switch, validate-before-create in the two attach functions, name pre-check of "
     "connect_interface, try/except clean-up of peer, try/except clean-up of add_component_sliver, the node_exists skip in _disconnect_interfaces; "
     "a behaviour probe of add_node's id check",
+    "gen/topoorder.py: the abstraction of every building function to validate / write / cache-update steps (which call names count as "
+    "writes is a pinned list; attribute reads are not counted as steps that can fail); the scan over it is proved sound in Lean "
+    "(OrderTok.scan_sound), the table itself is checked by the Lean driver on every run (orderOk)",
     "uuid4 freshness: generated ids are modelled as a counter disjoint from caller-supplied ids",
-    "set iteration order (lists of neighbours) is canonicalised by sorting before comparison",
-    "Topo.step / TopoOp and Topo.stepX / XOp (the alphabets atomic_op / atomic_xop quantify over) wrap the same functions the driver calls, "
-    "one constructor per request kind; the driver dispatches every building call through them",
+    "set iteration order (lists of neighbours) is canonicalised by sorting before comparison; where the order decides what a half-way "
+    "raise leaves behind (an interface with two ServicePort peers) only the outcome is compared and the rest of that history is left to the oracle",
+    "Topo.step / TopoOp, Topo.stepX / XOp and Topo.stepY / YOp (the alphabets atomic_op / atomic_xop / atomic_yop quantify over) wrap the same "
+    "functions the driver calls, one constructor per request kind; the driver dispatches every building call through them",
     "hypotheses of the guarded theorems (Covered / CoveredX): node ids distinct and no dangling edge (invariants of reachable models, C07), "
     "uuid freshness, interface handles refer to ConnectionPoints; for the removals RemoveHyp (every ServicePort owned by exactly one "
     "service, at most one ServicePort peer per interface, nothing hanging off a ServicePort, no edge between two service-attached "
@@ -52,19 +59,26 @@ TRUSTED_BASE = [
 ]
 ASSUMPTIONS = [
     "single-threaded use; NetworkX backend (the API's default); names are ASCII",
-    "atomic_op covers all 22 request kinds of the first alphabet and atomic_xop all 6 of the second (add_child_interface, "
-    "remove_child_interface, peer, unpeer, add_port_mirror_service, add_component(model_type=)) under explicit decidable hypotheses; "
-    "add_component with caller-supplied service/interface ids is inside since the clean-up of commit e285d22 (atomic_addComponent)",
+    "atomic_op covers all 22 request kinds of the first alphabet, atomic_xop all 6 of the second (add_child_interface, "
+    "remove_child_interface, peer, unpeer, add_port_mirror_service, add_component(model_type=)) and atomic_yop the third (update_labels / "
+    "update_capacities) under explicit decidable hypotheses; history_erasure / history_atomic lift them to every history over the three "
+    "alphabets; add_component with caller-supplied service/interface ids is inside since the clean-up of commit e285d22",
+    "PARTIAL: the removals (every caller of Topology._disconnect_interfaces) are proved under RemoveHyp; outside it - an interface with two "
+    "ServicePort peers, reachable through add_link - they raise half-way (known findings, removeNode_multipeer_counterexample)",
     "ExperimentTopology.prune is modelled (the marked elements in the order the call visits them come from the run) and checked "
     "differentially and by the oracle, but has no theorem: it is a sequence of removals, each covered on its own (CoveredX excludes it)",
-    "not modelled (so outside the proved claim): interface_labels other than empty Labels(), the Neo4j backend",
+    "oracle only (not modelled): non-empty / ill-typed interface_labels of add_component, the image_ref / image_type attribute setters, "
+    "add_node(ns_info=) (known finding); not covered at all: the Neo4j backend",
     "'model' = the graph the store holds for the topology's graph id plus the _interfaces cache(s) of the handle(s) the call was made on; "
     "a handle's cached .name is not part of it",
 ]
-RULE = ("histories of building calls of both alphabets (both flavours, caller-supplied and generated ids) with injected rejected calls: k-th interface "
-        "bogus/stale/connected/repeated/shared-on-L2PTP, one bad keyword among good ones at each position, duplicate names/ids, "
-        "unknown model, stale parents, id collisions of derived ids; non-trivial = the failing call comes after >= 1 successful "
-        "mutation of the history and, for list arguments, after >= 1 good element; distinct by op kind x fault x position x outcome kind")
+RULE = ("histories of building calls of the three alphabets (both flavours, caller-supplied and generated ids) with injected rejected calls: k-th "
+        "interface bogus/stale/connected/repeated/shared-on-L2PTP (top-level and node-owned services), one bad keyword among good ones at each "
+        "position, None / '' / wrong-typed values, duplicate names/ids, unknown model, stale parents, id collisions of derived ids, "
+        "nslabels / portlabels / portcapacities / missing service type of the composites, bad field among good ones in update_labels / "
+        "update_capacities, attribute assignment, removal by the wrong call on elements with connected (sub-)interfaces, states with two "
+        "ServicePort peers; non-trivial = the failing call comes after >= 1 successful mutation of the history and, for list arguments, "
+        "after >= 1 good element; distinct by op kind x fault x position x outcome kind")
 
 CORPUS = os.path.join(core.CORPUS_DIR, "C09")
 # calls whose guard in Covered / CoveredX is a predicate on the state alone -> the conjuncts the driver's `hyp` request evaluates
@@ -522,6 +536,9 @@ def c09_cases(flavour, base):
         {"op": "update_labels", "h": "h5", "fields": {"vlan": "9"}},
         {"op": "update_capacities", "h": "h6", "fields": {"bogus": 1}}]))
     out.append(("oracle-only/set_attr/image", base + [
+        {"op": "set_props", "h": "h0", "kw": [["image_ref", ["str", "img0"]], ["image_type", ["str", "qcow2"]]], "single": False},
+        {"op": "set_attr", "h": "h0", "attr": "image_ref", "val": ["int", 5]},          # rejected with a stored pair in place
+        {"op": "set_attr", "h": "h0", "attr": "image_type", "val": ["int", 5]},
         {"op": "set_attr", "h": "h0", "attr": "image_ref", "val": ["str", "img1"]},
         {"op": "set_attr", "h": "h0", "attr": "image_type", "val": ["str", "qcow2"]},
         {"op": "set_attr", "h": "h0", "attr": "image_ref", "val": ["str", "img2"]},
@@ -529,6 +546,18 @@ def c09_cases(flavour, base):
         {"op": "set_attr", "h": "h0", "attr": "image_type", "val": ["int", 5]},
         {"op": "set_attr", "h": "h0", "attr": "image_ref", "val": ["none"]},
         {"op": "set_attr", "h": "h0", "attr": "image_type", "val": ["none"]}]))
+    goodl = [["lab", {"bdf": "0000:41:00.%d" % j, "mac": "0C:42:A1:EA:C7:5%d" % j}] for j in range(2)]
+    compl = {"op": "add_component", "parent": "h0", "name": "nicl", "nid": "clid", "ctype": "SmartNIC", "model": "ConnectX-6",
+             "ns_nid": "clns", "if_nids": ["cli1", "cli2"], "kw": []}
+    out.append(("oracle-only/add_component/interface_labels/ok", base + [dict(compl, if_labels=goodl)]))
+    for pos in range(2):
+        for tag, badv in (("str", ["str", "x"]), ("cap", ["cap", {"bw": 1}]), ("none", ["none"])):
+            ll = list(goodl)
+            ll[pos] = badv
+            out.append(("oracle-only/add_component/interface_labels/bad-%s@%d" % (tag, pos), base + [dict(compl, if_labels=ll)]))
+    out.append(("oracle-only/add_component/interface_labels/short", base + [dict(compl, if_labels=goodl[:1])]))
+    out.append(("oracle-only/add_component/interface_labels/good+taken-id", base + [
+        dict(compl, if_labels=goodl, if_nids=["cli1", "c2i1" if sub else "cli1"])]))
     out.append(("oracle-only/add_node/ns_info-taken-id", base + [
         {"op": "add_node_nsinfo", "name": "nq", "nid": "nqid", "ns_nid": "freeid"},
         {"op": "add_node_nsinfo", "name": "nr", "nid": "nrid", "ns_nid": "nqid"}]))
@@ -552,52 +581,69 @@ def c09_cases(flavour, base):
         {"op": "add_switch", "name": "sw1", "site": "RENC", "nports": 2},                                            # h12; h13 h14
         {"op": "add_facility", "name": "fac1", "site": "RENC", "kw": []},                                            # h15; h16
         {"op": "add_service", "name": "sf", "nstype": "L2STS", "ifs": ["h13", "h16"], "kw": []}]
+    out.append(("node_remove_service/no-such-name", wrong + [{"op": "node_remove_service", "parent": "h0", "name": "nope"},
+                                                             {"op": "node_remove_service", "parent": "h12", "name": "nope"},
+                                                             {"op": "remove_component", "parent": "h0", "name": "nope"}]))
     for call, name in (("remove_facility", "n1"), ("remove_switch", "n1"), ("remove_facility", "sw1"), ("remove_switch", "fac1"),
                        ("remove_node", "fac1"), ("remove_facility", "nope"), ("remove_switch", "nope")):
         out.append(("%s/wrong-type/%s" % (call, name), wrong + [{"op": call, "name": name}]))
     # an interface with two ServicePort peers (add_link accepts a ServicePort of another service): every caller of
-    # _disconnect_interfaces then raises after the interfaces before it were disconnected - known findings
+    # _disconnect_interfaces then raises after the interfaces before it were disconnected - known findings.
+    # Which interface is visited first comes from a set of the store's internal ids, so the loss is made independent of it
+    # where the code allows: a connected port is always visited before its own sub-interface (`for ii in (i, *i.interface_list)`).
     two = base + [
-        {"op": "add_child_interface", "port": "h4", "name": "sub1", "kw": [["labels", ["lab", {"vlan": "101"}]]]},     # h10
-        {"op": "add_service", "name": "sa", "nstype": "L2Bridge", "ifs": ["h3", "h4", "h10"], "kw": []},              # h11
+        {"op": "add_child_interface", "port": "h3", "name": "sub1", "kw": [["labels", ["lab", {"vlan": "101"}]]]},     # h10
+        {"op": "add_service", "name": "sa", "nstype": "L2Bridge", "ifs": ["h3", "h10"], "kw": []},                    # h11 (p2 stays free)
         {"op": "add_service", "name": "sb", "nstype": "L2Bridge", "ifs": [], "kw": []},                              # h12
-        {"op": "ns_add_interface", "svc": "h12", "name": "bx", "itype": "ServicePort", "kw": []}]                     # h13
-    for tag, victim, rm in (
-            ("remove_node", "h4", {"op": "remove_node", "name": "n1"}),
-            ("remove_component", "h4", {"op": "remove_component", "parent": "h0", "name": "nic1"}),
-            ("remove_child_interface", "h10", {"op": "remove_child_interface", "port": "h4", "name": "sub1"})):
-        out.append(("multi-sp-peer/" + tag, two + [
-            {"op": "add_link", "name": "lx", "ltype": "L2Path", "ifs": [victim, "h13"], "kw": []}, rm]))
+        {"op": "ns_add_interface", "svc": "h12", "name": "bx", "itype": "ServicePort", "kw": []},                     # h13
+        {"op": "add_link", "name": "lx", "ltype": "L2Path", "ifs": ["h10", "h13"], "kw": []}]                         # sub1: 2 peers
     mark = lambda h: {"op": "set_props", "h": h, "kw": [["reservation_info", ["rinfo", "Failed"]]]}
-    out.append(("multi-sp-peer/prune", two + [
-        {"op": "add_link", "name": "lx", "ltype": "L2Path", "ifs": ["h4", "h13"], "kw": []}, mark("h0"), {"op": "prune", "state": "Failed"}]))
+    for tag, rm in (("remove_node", [{"op": "remove_node", "name": "n1"}]),
+                    ("remove_component", [{"op": "remove_component", "parent": "h0", "name": "nic1"}]),
+                    ("remove_child_interface", [{"op": "remove_child_interface", "port": "h3", "name": "sub1"}]),   # one interface: atomic
+                    ("prune", [mark("h0"), {"op": "prune", "state": "Failed"}])):
+        out.append(("multi-sp-peer/" + tag, two + rm))
     sws = base + [
         {"op": "add_switch", "name": "sw1", "site": "RENC", "nports": 2},                                            # h10; h11 h12
-        {"op": "add_facility", "name": "fac1", "site": "RENC", "ifs": [["fa", ["lab", {"vlan": "1"}], ["cap", {"bw": 1}]],
-                                                                        ["fb", ["lab", {"vlan": "2"}], ["cap", {"bw": 1}]]]},  # h13; h14 h15
-        {"op": "add_service", "name": "sa", "nstype": "L2STS", "ifs": ["h11", "h12", "h14", "h15"], "kw": []},       # h16
-        {"op": "add_service", "name": "sb", "nstype": "L2Bridge", "ifs": [], "kw": []},                              # h17
-        {"op": "ns_add_interface", "svc": "h17", "name": "bx", "itype": "ServicePort", "kw": []}]                     # h18
-    for tag, victim, rm in (
-            ("remove_switch", "h12", {"op": "remove_switch", "name": "sw1"}),
-            ("remove_facility", "h15", {"op": "remove_facility", "name": "fac1"}),
-            ("node_remove_service", "h12", {"op": "node_remove_service", "parent": "h10", "name": "sw1-ns"})):
-        out.append(("multi-sp-peer/" + tag, sws + [
-            {"op": "add_link", "name": "lx", "ltype": "L2Path", "ifs": [victim, "h18"], "kw": []}, rm]))
-    # a top-level service whose own interfaces are connected to another service, one of them twice
-    tops = base + [
-        {"op": "add_service", "name": "so", "nstype": "L2Bridge", "ifs": [], "kw": []},                              # h10
-        {"op": "ns_add_interface", "svc": "h10", "name": "o1", "itype": "TrunkPort", "kw": []},                       # h11
-        {"op": "ns_add_interface", "svc": "h10", "name": "o2", "itype": "TrunkPort", "kw": []},                       # h12
-        {"op": "add_service", "name": "sb", "nstype": "L2Bridge", "ifs": [], "kw": []},                              # h13
-        {"op": "ns_add_interface", "svc": "h13", "name": "b1", "itype": "ServicePort", "kw": []},                     # h14
-        {"op": "ns_add_interface", "svc": "h13", "name": "b2", "itype": "ServicePort", "kw": []},                     # h15
-        {"op": "ns_add_interface", "svc": "h13", "name": "b3", "itype": "ServicePort", "kw": []},                     # h16
-        {"op": "add_link", "name": "l1", "ltype": "L2Path", "ifs": ["h12", "h14"], "kw": []},        # o2 is visited first
-        {"op": "add_link", "name": "l2", "ltype": "L2Path", "ifs": ["h11", "h15"], "kw": []},
-        {"op": "add_link", "name": "l3", "ltype": "L2Path", "ifs": ["h11", "h16"], "kw": []},
-        {"op": "remove_service", "name": "so"}]
-    out.append(("multi-sp-peer/remove_service", tops))
+        {"op": "add_child_interface", "port": "h11", "name": "sub1", "kw": [["labels", ["lab", {"vlan": "101"}]]]},    # h13
+        {"op": "add_service", "name": "sa", "nstype": "L2Bridge", "ifs": ["h11", "h13"], "kw": []},                   # h14
+        {"op": "add_service", "name": "sb", "nstype": "L2Bridge", "ifs": [], "kw": []},                              # h15
+        {"op": "ns_add_interface", "svc": "h15", "name": "bx", "itype": "ServicePort", "kw": []},                     # h16
+        {"op": "add_link", "name": "lx", "ltype": "L2Path", "ifs": ["h13", "h16"], "kw": []}]
+    for tag, rm in (("remove_switch", {"op": "remove_switch", "name": "sw1"}),
+                    ("node_remove_service", {"op": "node_remove_service", "parent": "h10", "name": "sw1-ns"})):
+        out.append(("multi-sp-peer/" + tag, sws + [rm]))
+    # FacilityPorts and a service's own ports have no sub-interfaces: the loss depends on which of two interfaces is visited
+    # first.  Both assignments are run (exactly one of them loses the other interface's connection); oracle only.
+    for swap in (0, 1):
+        one, dbl = ("h12", "h13") if swap == 0 else ("h13", "h12")
+        facs = base + [
+            {"op": "add_facility", "name": "fac1", "site": "RENC", "ifs": [["fa", ["lab", {"vlan": "1"}], ["cap", {"bw": 1}]],
+                                                                            ["fb", ["lab", {"vlan": "2"}], ["cap", {"bw": 1}]]]},  # h10; h11 h12?
+        ]
+        # handles: h10 = fac1, then its ports in harvest order h11 h12
+        one, dbl = ("h11", "h12") if swap == 0 else ("h12", "h11")
+        facs += [
+            {"op": "add_service", "name": "sa", "nstype": "L2STS", "ifs": [one, dbl], "kw": []},                      # h13
+            {"op": "add_service", "name": "sb", "nstype": "L2Bridge", "ifs": [], "kw": []},                          # h14
+            {"op": "ns_add_interface", "svc": "h14", "name": "bx", "itype": "ServicePort", "kw": []},                 # h15
+            {"op": "add_link", "name": "lx", "ltype": "L2Path", "ifs": [dbl, "h15"], "kw": []},
+            {"op": "remove_facility", "name": "fac1"}]
+        out.append(("oracle-only/multi-sp-peer/remove_facility/%d" % swap, facs))
+        one, dbl = ("h11", "h12") if swap == 0 else ("h12", "h11")
+        tops = base + [
+            {"op": "add_service", "name": "so", "nstype": "L2Bridge", "ifs": [], "kw": []},                          # h10
+            {"op": "ns_add_interface", "svc": "h10", "name": "o1", "itype": "TrunkPort", "kw": []},                   # h11
+            {"op": "ns_add_interface", "svc": "h10", "name": "o2", "itype": "TrunkPort", "kw": []},                   # h12
+            {"op": "add_service", "name": "sb", "nstype": "L2Bridge", "ifs": [], "kw": []},                          # h13
+            {"op": "ns_add_interface", "svc": "h13", "name": "b1", "itype": "ServicePort", "kw": []},                 # h14
+            {"op": "ns_add_interface", "svc": "h13", "name": "b2", "itype": "ServicePort", "kw": []},                 # h15
+            {"op": "ns_add_interface", "svc": "h13", "name": "b3", "itype": "ServicePort", "kw": []},                 # h16
+            {"op": "add_link", "name": "l1", "ltype": "L2Path", "ifs": [one, "h14"], "kw": []},
+            {"op": "add_link", "name": "l2", "ltype": "L2Path", "ifs": [dbl, "h15"], "kw": []},
+            {"op": "add_link", "name": "l3", "ltype": "L2Path", "ifs": [dbl, "h16"], "kw": []},
+            {"op": "remove_service", "name": "so"}]
+        out.append(("oracle-only/multi-sp-peer/remove_service/%d" % swap, tops))
     return out
 
 
@@ -633,8 +679,13 @@ def compare_with_model(steps_by_history, res):
             lines.append(T.lean_line(st["line"]))
             index.append((hi, si))
     replies = LeanDriver("C09").run(lines)
+    order_dep = set()        # (history, step): a caller of _disconnect_interfaces in a state where an interface has two ServicePort peers
+    diverged = set()         # histories not compared any further (see below)
     for ix, rep in zip(index, replies):
         if ix is None:
+            continue
+        if ix[0] != "hyp" and ix[0] in diverged:
+            res.count("not-compared:after-order-dependent-raise")
             continue
         if ix[0] == "hyp":
             # the decidable state hypotheses of atomic_op / atomic_xop, evaluated by the driver in the state before the call
@@ -643,6 +694,8 @@ def compare_with_model(steps_by_history, res):
             need = HYP_OPS[st["op"]["op"]]
             holds = all(v[k] for k in need)
             res.count("guard:%s:%s" % (st["op"]["op"], "holds" if holds else "fails:" + "+".join(k for k in need if not v[k])))
+            if st["op"]["op"] in DETACH_OPS and not v.get("spPeer1", True):
+                order_dep.add((ix[1], ix[2]))
             if holds and st["outcome"][0] == "err" and st["before"] != st["after"]:
                 # an instance of the theorem: guard held, call raised, yet the implementation's model changed
                 res.disagreements.append({"case": {"history": ix[1], "step": ix[2], "line": st["line"], "ops": st["history"]},
@@ -653,6 +706,16 @@ def compare_with_model(steps_by_history, res):
         m_out, m_snap = T.parse_reply(rep)
         i_out = st["outcome"]
         res.evaluations += 1
+        if (ix[0], ix[1]) in order_dep and (i_out[:2] == ["err", "topology"] or m_out[:2] == ["err", "topology"]):
+            # the code reports "more than one peer" at the interface it happens to visit (a set of the store's internal ids decides
+            # which one comes first); the model visits in storage order.  What was disconnected before the raise may differ:
+            # compare the outcome only and leave the rest of this history to the oracle.
+            res.count("order-dependent:" + st["op"]["op"])
+            if i_out[:2] != m_out[:2]:
+                res.disagreements.append({"case": {"history": ix[0], "step": ix[1], "line": st["line"], "ops": st["history"]},
+                                          "impl": {"outcome": {"impl": i_out[:2], "model": m_out[:2]}}, "model": "see impl"})
+            diverged.add(ix[0])
+            continue
         res.count("op:" + st["op"]["op"])
         res.count("outcome:" + (i_out[0] if i_out[0] == "ok" else "err:" + i_out[1]))
         if "fault" in st["op"]:
@@ -679,7 +742,21 @@ def compare_with_model(steps_by_history, res):
             res.nontrivial.add(canon([st["op"]["op"], st["op"].get("fault"), i_out[1], len(st["op"].get("ifs") or [])]))
 
 
+def order_table(res):
+    """hypothesis of C09.order_discipline, evaluated by the Lean driver on the write-order table generated in this run"""
+    rep = json.loads(LeanDriver("C09").run([json.dumps({"op": "order"})])[0])
+    v = rep[1] if rep and rep[0] == "ok" else {"ok": False, "bad": [["driver", str(rep)[:200]]]}
+    res.count("order-table:" + ("in-order" if v["ok"] else "changed"))
+    if not v["ok"]:
+        res.disagreements.append({"case": {"write-order-table": v["bad"]},
+                                  "impl": "these building functions are neither single-write nor of the shape pinned in Proofs/C09.lean "
+                                          "(pinnedOrder): a step that can raise now follows a write, or a rollback construct changed",
+                                  "model": "orderOk = false"})
+    return v["ok"]
+
+
 def correspondence(ctx, res):
+    order_table(res)
     hs = []
     for name, fl, ops in corpus_cases():
         hs.append(run_history(fl, ops))
